@@ -882,11 +882,20 @@ def _slog_plain(ctx, u):
     u = z3.simplify(u)
     if znum(u) is not None:
         return _slog_plain(ctx, znum(u))
+    # log(c / q) = log(c) - log(q) for a positive numeral c (q > 0 is then equivalent to c/q > 0)
+    if u.decl().kind() == z3.Z3_OP_DIV and znum(u.arg(0)) is not None and znum(u.arg(0)) > 0:
+        lc, _ = _slog_plain(ctx, znum(u.arg(0)))
+        lq, dq = _slog_plain(ctx, u.arg(1))
+        return toreal(lc) - toreal(lq) if (is_z(lc) or lc != 0) else -toreal(lq), dq
     pos = DEC.decide(u > 0)
     if is_z(pos):
         ctx.side.append(pos)
     l = ctx.LOG(u)
     if l.get_id() not in ctx.log_arg:
+        # pairwise monotonicity with the most recent LOG atoms
+        for j, v in list(ctx.log_arg.items())[-8:]:
+            lv = ctx.LOG(v)
+            ctx.facts.append(z3.Implies(z3.And(u > 0, v > 0), z3.And((u < v) == (l < lv), (u == v) == (l == lv))))
         ctx.log_arg[l.get_id()] = u
         ctx.keep.append(l)
         ctx.facts += [z3.Implies(u > 0, z3.And((u > 1) == (l > 0), (u == 1) == (l == 0)))]
